@@ -62,4 +62,19 @@ RECURSIVE RenderToks(_)
 RenderToks(ts) == IF ts = << >> THEN "" ELSE IF Len(ts) = 1 THEN RenderTok(ts[1]) ELSE RenderTok(ts[1]) \o " " \o RenderToks(Tail(ts))
 RenameTok(tok, A, B) == IF tok.k = "link" /\ tok.target = A THEN [tok EXCEPT !.target = B] ELSE tok
 RenameToks(ts, A, B) == [i \in DOMAIN ts |-> RenameTok(ts[i], A, B)]
+
+---------------------------------------------------------------------------
+(* Template initialisation (C16).  fs : [path -> text] (a missing key = no file).  A configuration is an ORDERED     *)
+(* sequence of patterns; a pattern knows which paths it matches and what it captures (Matches / Captures are given   *)
+(* per model).  NoClobber, FirstMatchWins and Idempotent are what the property states.                                *)
+FirstMatch(patterns, path, Matches(_, _)) ==
+  LET idx == { i \in DOMAIN patterns : Matches(patterns[i], path) } IN
+  IF idx = {} THEN 0 ELSE CHOOSE i \in idx : \A j \in idx : i <= j
+\* the content of `path` after `template init path` ("" = the file does not exist)
+InitResult(old, overwrite, patterns, path, explicit, Matches(_, _), Render(_, _)) ==
+  IF old # "" /\ ~overwrite THEN old
+  ELSE LET m == FirstMatch(patterns, path, Matches) IN
+       IF m # 0 THEN Render(patterns[m], path)
+       ELSE IF explicit # "" THEN Render(explicit, path)
+       ELSE old
 =============================================================================
